@@ -1259,7 +1259,9 @@ fn random_request(view: &View, rng: &mut Rng) -> Req {
         }
         4 => {
             shape = "chars:half";
-            chars = pick_some(rng, n / 2);
+            // capped: a scattered request over a million code points only
+            // measures klippa's output-size limit (see legitimate_error)
+            chars = pick_some(rng, (n / 2).min(100_000));
         }
         5 => {
             shape = "chars:all-1";
